@@ -349,7 +349,7 @@ pub struct RunArgs {
 
 /// Decides one case: returns Ok(outcome) when everything that fired is a listed known finding
 /// (or nothing fired), Err((violation, outcome)) otherwise.
-fn decide<P: Property>(prop: &P, case: &P::Case) -> (Outcome, Option<Violation>, Vec<FindingEntry>) {
+pub fn decide<P: Property>(prop: &P, case: &P::Case) -> (Outcome, Option<Violation>, Vec<FindingEntry>) {
     set_quiet(true);
     let res = catch(|| prop.run(case));
     set_quiet(false);
@@ -406,6 +406,10 @@ pub fn run_property<P: Property>(prop: P, args: RunArgs) -> i32 {
         stats.checks += outcome.checks;
         if let Some(v) = new {
             let path = write_replay(&*prop, &args, &case, &v);
+            if is_harness_fault(&v) {
+                eprintln!("harness error: regression case #{i} panicked inside the harness: {} — {} (case saved to {})", v.signature, v.detail, path.display());
+                return 2;
+            }
             stats.samples.push(prop.sample(&case));
             write_evidence(&*prop, &args, &stats, total_cases, t0, 1);
             println!("regression case #{i} failed: {} — {}", v.signature, v.detail);
@@ -534,6 +538,11 @@ pub fn run_property<P: Property>(prop: P, args: RunArgs) -> i32 {
             return 2;
         }
         let path = write_replay(&*prop, &args, &case, &v);
+        if is_harness_fault(&v) {
+            eprintln!("harness error: a generated case panicked inside the harness: {} — {} (case saved to {})", v.signature, v.detail, path.display());
+            write_evidence(&*prop, &args, &stats, total_cases, t0, 0);
+            return 2;
+        }
         println!("violation: {} — {}", v.signature, v.detail);
         println!("VIOLATION property={id} replay={}", path.display());
         exit = 1;
@@ -572,6 +581,10 @@ fn replay<P: Property>(prop: &P, path: &Path) -> i32 {
         println!("KNOWN-FINDING: property={} {} [{}]", prop.id(), e.what, e.signature);
     }
     match new {
+        Some(v) if is_harness_fault(&v) => {
+            eprintln!("harness error: the case panics inside the harness: {} — {}", v.signature, v.detail);
+            2
+        }
         Some(v) => {
             println!("violation: {} — {}", v.signature, v.detail);
             println!("VIOLATION property={} replay={}", prop.id(), path.display());
@@ -585,13 +598,17 @@ fn replay<P: Property>(prop: &P, path: &Path) -> i32 {
 }
 
 fn write_replay<P: Property>(prop: &P, args: &RunArgs, case: &P::Case, v: &Violation) -> PathBuf {
+    write_replay_raw(prop, args.tier.as_str(), args.seed, case, v)
+}
+
+pub fn write_replay_raw<P: Property>(prop: &P, tier: &str, seed: u64, case: &P::Case, v: &Violation) -> PathBuf {
     let dir = Path::new(VERIF_ROOT).join("replays");
     let _ = std::fs::create_dir_all(&dir);
     let path = dir.join(format!("{}-{:016x}.json", prop.id(), fingerprint(case)));
     let file = ReplayFile {
         property: prop.id().to_string(),
-        tier: args.tier.as_str().to_string(),
-        seed: args.seed,
+        tier: tier.to_string(),
+        seed,
         signature: v.signature.clone(),
         detail: v.detail.clone(),
         case: case.clone(),
@@ -617,14 +634,21 @@ fn write_evidence<P: Property>(
         stats.labels.iter().map(|(k, v)| (k.clone(), json!(v))).collect();
     let known: serde_json::Map<String, Value> =
         stats.known_hits.iter().map(|(k, v)| (k.clone(), json!(v))).collect();
-    let ev = json!({
+    let fuzz = fuzz_summary();
+    let (fuzz_execs, fuzz_distinct) = fuzz
+        .as_ref()
+        .map(|f| (f["execs"].as_u64().unwrap_or(0), f["distinct_nontrivial_lower_bound"].as_u64().unwrap_or(0)))
+        .unwrap_or((0, 0));
+    let mut ev = json!({
         "property_id": prop.id(),
         "tier": args.tier.as_str(),
         "seed": args.seed,
         "level": "exploration",
         "coverage": {
-            "evaluations": stats.evaluations,
-            "distinct_nontrivial": stats.nontrivial.len(),
+            "evaluations": stats.evaluations + fuzz_execs,
+            "distinct_nontrivial": stats.nontrivial.len() as u64 + fuzz_distinct,
+            "proptest_cases": stats.evaluations,
+            "proptest_distinct_nontrivial": stats.nontrivial.len(),
             "rule": prop.rule(),
             "samples": stats.samples,
             "planned_cases": planned,
@@ -638,11 +662,88 @@ fn write_evidence<P: Property>(
         "wall_s": (t0.elapsed().as_secs_f64() * 100.0).round() / 100.0,
         "violations": violations,
     });
+    if let Some(f) = fuzz {
+        ev["coverage"]["fuzz"] = f;
+    }
     let path = dir.join(format!("{}.json", prop.id()));
     let tmp = dir.join(format!("{}.json.tmp", prop.id()));
     if std::fs::write(&tmp, serde_json::to_string_pretty(&ev).unwrap_or_default()).is_ok() {
         let _ = std::fs::rename(&tmp, &path);
     }
+}
+
+/// Statistics of the libFuzzer campaign that preceded this run (thorough tier; see `fuzz.rs` and
+/// tools/fuzz_campaign.sh): one file per process in `$VERIF_FUZZ_STATS_DIR`.
+fn fuzz_summary() -> Option<Value> {
+    let dir = std::env::var_os("VERIF_FUZZ_STATS_DIR")?;
+    let rc = std::env::var("VERIF_FUZZ_RC").unwrap_or_default();
+    let mut execs = 0u64;
+    let mut generated = 0u64;
+    let mut rejects = 0u64;
+    let mut checks = 0u64;
+    let mut violations = 0u64;
+    let mut excluded = 0u64;
+    let mut distinct: Vec<u64> = Vec::new();
+    let mut classes: BTreeMap<String, u64> = BTreeMap::new();
+    let mut known: BTreeMap<String, u64> = BTreeMap::new();
+    let mut samples: Vec<Value> = Vec::new();
+    if let Ok(rd) = std::fs::read_dir(&dir) {
+        let mut files: Vec<_> = rd.flatten().map(|e| e.path()).filter(|p| p.extension().is_some_and(|e| e == "json")).collect();
+        files.sort();
+        for f in files {
+            let Ok(text) = std::fs::read_to_string(&f) else { continue };
+            let Ok(v) = serde_json::from_str::<Value>(&text) else { continue };
+            execs += v["execs"].as_u64().unwrap_or(0);
+            generated += v["cases_generated"].as_u64().unwrap_or(0);
+            rejects += v["generator_rejects"].as_u64().unwrap_or(0);
+            checks += v["oracle_checks"].as_u64().unwrap_or(0);
+            violations += v["violations"].as_u64().unwrap_or(0);
+            excluded += v["excluded_known"].as_u64().unwrap_or(0);
+            distinct.push(v["distinct_nontrivial"].as_u64().unwrap_or(0));
+            for (key, into) in [("classes", &mut classes), ("known_finding_hits", &mut known)] {
+                if let Some(m) = v[key].as_object() {
+                    for (k, n) in m {
+                        *into.entry(k.clone()).or_default() += n.as_u64().unwrap_or(0);
+                    }
+                }
+            }
+            if samples.len() < 2
+                && let Some(a) = v["samples"].as_array()
+                && let Some(first) = a.first()
+            {
+                samples.push(first.clone());
+            }
+        }
+    }
+    let note = match rc.as_str() {
+        "0" => "campaign completed",
+        "1" => "campaign reported a violation",
+        "2" => "a libFuzzer process ended abnormally (timeout / OOM / harness error) without a property violation",
+        "3" => "the fuzz target did not build with the nightly toolchain; proptest tier only",
+        _ => "",
+    };
+    Some(json!({
+        "engine": "libFuzzer (cargo-fuzz), input bytes = random stream of the property's proptest generator, oracle = the property's run()",
+        "processes": distinct.len(),
+        "execs": execs,
+        "cases_generated": generated,
+        "generator_rejects": rejects,
+        "oracle_checks": checks,
+        "distinct_nontrivial_per_process": distinct,
+        "distinct_nontrivial_lower_bound": distinct.iter().copied().max().unwrap_or(0),
+        "classes": classes,
+        "known_finding_hits": known,
+        "excluded_known": excluded,
+        "violations": violations,
+        "samples": samples,
+        "status": note,
+    }))
+}
+
+/// A panic raised by the harness's own code is a defect of the machinery, not of the code under
+/// test: it is reported as exit 2, never as a violation.
+pub fn is_harness_fault(v: &Violation) -> bool {
+    v.signature.contains("/verif/harness/src/") || v.signature.contains("/src/props/") || v.signature.contains("/src/fixtures/")
 }
 
 /// Monotone index mapping: a generated u16 chooses an element of a collection of length `len`
